@@ -261,3 +261,66 @@ pub fn single_reply_position(rng: &mut Rng) -> Option<Pos> {
     }
     None
 }
+
+/// A pawn one step from promotion with both kings close to the promotion square (the
+/// geometry of stalemate tricks and mating under-promotions), optionally one more man:
+/// positions in which WHICH piece to promote to decides the value.
+pub fn promotion_choice_position(rng: &mut Rng) -> Pos {
+    loop {
+        let mut p = Pos {
+            sq: [EMPTY; 64],
+            white_to_move: true,
+            castle: [false; 4],
+            ep: None,
+            halfmove: 0,
+            fullmove: 60,
+        };
+        let f = rng.below(8) as i8;
+        let pawn = sq(f, 6);
+        p.sq[pawn as usize] = PAWN;
+        let near = |rng: &mut Rng, cf: i8, cr: i8, d: i8| -> Option<u8> {
+            let nf = cf + rng.range(0, 2 * d as u64) as i8 - d;
+            let nr = cr + rng.range(0, 2 * d as u64) as i8 - d;
+            if (0..8).contains(&nf) && (0..8).contains(&nr) {
+                Some(sq(nf, nr))
+            } else {
+                None
+            }
+        };
+        let Some(bk) = near(rng, f, 7, 2) else { continue };
+        let Some(wk) = near(rng, f, 5, 2) else { continue };
+        if p.sq[bk as usize] != EMPTY || p.sq[wk as usize] != EMPTY || bk == wk {
+            continue;
+        }
+        p.sq[bk as usize] = KING | BLACK;
+        p.sq[wk as usize] = KING;
+        for _ in 0..rng.below(3) {
+            let s = rng.below(64) as u8;
+            if p.sq[s as usize] == EMPTY {
+                let k = *rng.pick(&[PAWN, KNIGHT, BISHOP, ROOK, QUEEN]);
+                if k == PAWN && (rank_of(s) == 0 || rank_of(s) == 7) {
+                    continue;
+                }
+                p.sq[s as usize] = k | if rng.chance(1, 2) { 0 } else { BLACK };
+            }
+        }
+        // mirrored for Black half of the time
+        if rng.chance(1, 2) {
+            let mut q = p.clone();
+            for s in 0..64u8 {
+                let t = sq(file_of(s), 7 - rank_of(s));
+                let pc = p.sq[s as usize];
+                q.sq[t as usize] = if pc == EMPTY { EMPTY } else { pc ^ BLACK };
+            }
+            q.white_to_move = false;
+            p = q;
+        }
+        // sometimes the defender is to move (the promotion sits one ply below the root)
+        if rng.chance(1, 3) {
+            p.white_to_move = !p.white_to_move;
+        }
+        if p.is_valid() && !p.legal_moves().is_empty() {
+            return p;
+        }
+    }
+}
